@@ -13,7 +13,8 @@ import numpy
 MAG_CAP = 1.0e4
 
 UNARY = ('sin', 'cos', 'exp', 'tan', 'sqrt', 'log', 'reciprocal', 'square', 'negative',
-         'expm1', 'log1p', 'erf', 'expit', 'neg', 'gammaln', 'psi', 'erfi', 'dawsn', 'logit', 'absolute')
+         'expm1', 'log1p', 'erf', 'expit', 'neg', 'gammaln', 'psi', 'erfi', 'dawsn', 'logit', 'absolute',
+         'sign', 'conjugate')
 TUPLE_OPS = ('qr', 'qr_full', 'eigh', 'lu', 'svd')
 
 
@@ -56,8 +57,10 @@ class AlgopyBackend(object):
             'erf': al.special.erf, 'expit': al.special.expit, 'neg': lambda v: -v,
             'gammaln': al.special.gammaln, 'psi': al.special.psi, 'erfi': al.special.erfi,
             'dawsn': al.special.dawsn, 'logit': al.special.logit, 'absolute': al.absolute,
+            'sign': al.sign, 'conjugate': al.conjugate,
         }
-        self.spf = {'polygamma': al.special.polygamma, 'hyperu': al.special.hyperu}
+        self.spf = {'polygamma': al.special.polygamma, 'hyperu': al.special.hyperu,
+                    'botched_clip': al.special.botched_clip}
         self.lin1 = {'inv': al.inv, 'det': al.det, 'logdet': al.logdet, 'trace': al.trace,
                      'cholesky': al.cholesky, 'qr': al.qr, 'qr_full': al.qr_full, 'eigh': al.eigh,
                      'lu': al.lu, 'svd': al.svd, 'diag': al.diag, 'prod': al.prod,
@@ -704,7 +707,20 @@ class Gen(object):
         w = rng.choice(['sin', 'cos', 'expsin', 'tansin', 'sqrt', 'log', 'recip', 'powr', 'erf', 'expit',
                         'expm1', 'log1p', 'tansin', 'divpos', 'sqrt', 'special', 'special'])
         if w == 'special':
-            w = rng.choice(['erfi', 'dawsn', 'gammaln', 'psi', 'logit', 'polygamma', 'hyperu', 'absolute', 'prod'])
+            w = rng.choice(['erfi', 'dawsn', 'gammaln', 'psi', 'logit', 'polygamma', 'hyperu', 'absolute', 'prod',
+                            'sign', 'conjugate', 'botched_clip'])
+        if w in ('sign', 'conjugate'):
+            # piecewise constant / identity on real data: their kernels run in both sweeps, the
+            # value feeds a product so that the adjoint passing through them is not trivially unused
+            s = self.emit('un', [a], sh, 1.0, f=rng.choice(['sin', 'cos']))
+            g = self.emit('un', [s], sh, 1.0, f=w)
+            self.emit('mul', [g, s], sh, 1.0)
+            return True
+        if w == 'botched_clip':
+            s = self.emit('un', [a], sh, 1.0, f=rng.choice(['sin', 'cos']))
+            pz = self.emit('add', [s, {'c': 1.5}], sh, 2.5, pos=(0.5, 2.5))
+            self.emit('spf', [pz], sh, 2.0, f='botched_clip', params=[1.0, 2.0], pos=(1.0, 2.0))
+            return True
         if w in ('erfi', 'dawsn'):
             s = self.emit('un', [a], sh, 1.0, f=rng.choice(['sin', 'cos']))
             self.emit('un', [s], sh, 2.0, f=w)
